@@ -483,10 +483,22 @@ def run_holo(F1, F2, A2, e1, e2, mode, seq=0):
     from emd import spectra
     P = [arr(F1), arr(F2), arr(A2), np.asarray(e1, dtype=float), np.asarray(e2, dtype=float)]   # pristine
     W = [x.copy() for x in P]                                                                 # the caller's arrays
+    # memory layout of the caller's arrays (same logical values): C order, Fortran order (what a transposed view of a
+    # [K x M x T] array is), or a strided view into a larger buffer - round 6, C11 patch 2 flattened inam2 in memory order
+    layout = (seq + P[0].shape[0]) % 3
+    if layout == 1:
+        W = [np.asfortranarray(x) for x in W]
+    elif layout == 2:
+        def strided(x):
+            big = np.zeros(tuple(2 * n for n in x.shape), dtype=x.dtype)
+            v = big[tuple(slice(None, None, 2) for _ in x.shape)]
+            v[...] = x
+            return v
+        W = [strided(x) for x in W]
     names = ('infr', 'infr2', 'inam2', 'freq_edges', 'freq_edges2')
     order = HOLO_ORDERS[seq % len(HOLO_ORDERS)]
     calls = [(nm, mode, nm) for nm in order] + [('other', other_mode(mode), order[1]), ('again', mode, order[0])]
-    out = {'order': ['%s:%s/%s' % c for c in calls], 'modified': {}}
+    out = {'order': ['%s:%s/%s' % c for c in calls], 'modified': {}, 'layout': ('C', 'F', 'strided')[layout]}
     for lab, md, sq in calls:
         def go(md=md, sq=sq):
             h = spectra.holospectrum(W[0], W[1], W[2], W[3], W[4], mode=md, squash_time=SQ[sq])
